@@ -2022,7 +2022,10 @@ func extractUnmarshal(m *model.Msg) (*decModel, error) {
 		switch rs {
 		case "int32(" + w.wire.Name() + " >> 3)":
 			w.fnum = info.ObjectOf(as.Lhs[0].(*ast.Ident))
-		case "int(" + w.wire.Name() + " & 0x7)", "int(" + w.wire.Name() + " & 7)":
+		case "int(" + w.wire.Name() + " & 0x7)", "int(" + w.wire.Name() + " & 7)",
+			// the same three bits as a protowire.Type (an int8): every wire type 0..7 fits, comparisons with the named
+			// constants are comparisons with their numbers
+			"protowire.Type(" + w.wire.Name() + " & 0x7)", "protowire.Type(" + w.wire.Name() + " & 7)":
 			w.wt = info.ObjectOf(as.Lhs[0].(*ast.Ident))
 		default:
 			return nil, und("decode loop: %s", rs)
@@ -2039,7 +2042,13 @@ func extractUnmarshal(m *model.Msg) (*decModel, error) {
 				return nil, und("decode loop guard %s", nodeStr(t.Cond))
 			}
 			cs := types.ExprString(t.Cond)
-			if cs == w.wt.Name()+" == 4" {
+			isEndGroup := false
+			if be, ok := ast.Unparen(t.Cond).(*ast.BinaryExpr); ok && be.Op == token.EQL && w.is(be.X, w.wt) {
+				if k, ok := constInt(info, be.Y); ok && k == 4 { // also by its name, protowire.EndGroupType
+					isEndGroup = true
+				}
+			}
+			if isEndGroup {
 				dm.HasEndGroup = true
 			} else if cs == w.fnum.Name()+" <= 0" {
 				dm.HasBadTag = true
